@@ -4,7 +4,7 @@ changes) from the per-variant meta_<x>.json files, the audits and
 notes/strengthening.json.
 
  - round-1 variants (a, b) keep what the existing index says about the first attempt;
- - round-2 variants (c, d) take "detected at first attempt" from the first audit that
+ - round-2/3 variants (c, d / e, f) take "detected at first attempt" from the first audit that
    was run right after they were confirmed (notes/audit_seeded_*_r2w1.json, *_r2w2.json, *_r2w3.json);
  - "detected_by" comes from the latest full audit (notes/audit_seeded.json) when present;
  - "strengthening" (what had to be added to the check) comes from notes/strengthening.json."""
@@ -23,7 +23,7 @@ def load(p, d=None):
 def main():
     strengthening = load(os.path.join(V, "notes", "strengthening.json"), {})
     first = {}
-    for p in sorted(glob.glob(os.path.join(V, "notes", "audit_seeded_*_r2w*.json"))):
+    for p in sorted(glob.glob(os.path.join(V, "notes", "audit_seeded_*_r[23]w*.json"))):
         for r in load(p, []):
             x = r["patch"].replace("patch_", "").replace(".diff", "")
             first.setdefault((r["property"], x), bool(r.get("caught")))
@@ -58,9 +58,12 @@ def main():
             else:
                 e["detected_at_first_attempt"] = o.get("detected_at_first_attempt")
             e["strengthening"] = strengthening.get(pid, {}).get(x, o.get("strengthening"))
+            if m.get("superseded"):
+                e["superseded"] = m["superseded"]
+                e["detected_by"] = None
             variants.append(e)
         idx = dict(property=pid,
-                   origin="written by fresh sub-agents that saw only the property text and a scratch git worktree of /repo (nothing from /verif); round 2 additionally got one-line descriptions of the round-1 ideas so as not to repeat them",
+                   origin="written by fresh sub-agents that saw only the property text and a scratch git worktree of /repo (nothing from /verif); rounds 2 and 3 additionally got one-line descriptions of the earlier ideas so as not to repeat them",
                    what_i_ran="tools/confirm_seeded.py <id> (demo on clean HEAD = 0; git apply; go build + unedited suite green; demo != 0; checkout) in the scratch worktree, then tools/audit.py --dir seeded (git -C /repo apply; ./check <id> quick; git -C /repo checkout -- .)",
                    variants=variants)
         json.dump(idx, open(os.path.join(d, "meta.json"), "w"), indent=1)
